@@ -1,12 +1,16 @@
 /-
   Driver.C19 — stream `C19`: one cell of the typed-property table.
 
-    payload := ( mode tag prop attr ( anc* ) init assign )
+    payload := ( mode tag prop attr iattr ( anc* ) pre via init assign )
       mode   := cell                       -- the model of the code: dispatch over the generated tables (AHP.Gen)
               | spec                       -- the documented rule (AHP.Conv.Spec) evaluated on the same cell:
                                            --   result := ( setout value "htmlName" )  |  bare
     payload := ( names )                   -- the documented name tables: ( ("tag" "prop"*)* ) ( "common"* )
-      tag prop attr anc := string atoms    -- attr: the HTML attribute the cell initialises and observes
+      tag prop attr iattr anc := string atoms
+                                           -- tag: as passed to the constructor (any case); attr: the HTML attribute observed;
+                                           -- iattr: its spelling when the cell initialises it (any case)
+      pre    := true | false               -- an unrelated attribute data-k="v" precedes
+      via    := ctor | html | setattr      -- constructor attribute list (= what the parser calls) | em.setAttribute(iattr, text)
       init   := absent | (bare) | (text T)
       assign := no | (s T) | (i n) | (b true|false) | (n)               -- `em.prop = value` after the initialisation
       T      := "text" | (rep T n) | (cat T*)
@@ -75,15 +79,30 @@ def observe (T : Tables) (e : Elem) (prop attr : String) (setout : Sexp) : Sexp 
          boolSym (e.hasAttribute attr),
          .list (e.attributesList.map (fun (k, v) => .list [strAtom k.toList, optStr v]))]
 
-def runCell (T : Tables) (tag prop attr : String) (anc : List String) (init : List (String × Option Str))
-    (assign : Option PyV) : Sexp :=
-  let e0 := Elem.ofAttrList T tag anc init (Elem.new tag anc)
-  match assign with
-  | none => observe T e0 prop attr (sym "skip")
-  | some v =>
-    match setProp T pyIntOfStr e0 prop v with
-    | .ok e1 => observe T e1 prop attr (sym "ok")
-    | .error err => observe T e0 prop attr (.list [sym "raise", sym (errName err)])
+/-- Build the element the way the cell says; `none` when the initialisation itself raised. -/
+def initial (T : Tables) (tag : String) (anc : List String) (pre : Bool) (via : String)
+    (init : List (String × Option Str)) : Except PyErr Elem :=
+  let tag' := lowerS tag                         -- AdvancedTag.__init__: self.tagName = tagName.lower()
+  let preAttrs : List (String × Option Str) := if pre then [("data-k", some (str "v"))] else []
+  if via = "setattr" then
+    let e0 := Elem.ofAttrList T tag' anc preAttrs (Elem.new tag' anc)
+    match init with
+    | [(k, some s)] => e0.setAttribute T k (.str s)
+    | [(k, none)] => e0.setAttribute T k .none
+    | _ => .ok e0
+  else .ok (Elem.ofAttrList T tag' anc (preAttrs ++ init) (Elem.new tag' anc))
+
+def runCell (T : Tables) (tag prop attr : String) (anc : List String) (pre : Bool) (via : String)
+    (init : List (String × Option Str)) (assign : Option PyV) : Sexp :=
+  match initial T tag anc pre via init with
+  | .error err => .list [sym "init-raise", sym (errName err)]
+  | .ok e0 =>
+    match assign with
+    | none => observe T e0 prop attr (sym "skip")
+    | some v =>
+      match setProp T pyIntOfStr e0 prop v with
+      | .ok e1 => observe T e1 prop attr (sym "ok")
+      | .error err => observe T e0 prop attr (.list [sym "raise", sym (errName err)])
 
 /-- The documented rule on a cell (used by the harness to compare its Python restatement with `Spec`). -/
 def runSpec (tag prop : String) (anc : List String) (init : List (String × Option Str)) (assign : Option PyV) : Sexp :=
@@ -108,10 +127,10 @@ def specNames : Sexp :=
 def run (payload : String) : String :=
   match Sexp.parse payload with
   | some (.list [.atom "names"]) => specNames.render
-  | some (.list [.atom mode, tag, prop, attr, .list anc, init, assign]) =>
-    match toS? tag, toS? prop, toS? attr, anc.mapM toS? with
-    | some tag, some prop, some attr, some anc =>
-      match parseInit attr init with
+  | some (.list [.atom mode, tag, prop, attr, iattr, .list anc, .atom pre, .atom via, init, assign]) =>
+    match toS? tag, toS? prop, toS? attr, toS? iattr, anc.mapM toS? with
+    | some tag, some prop, some attr, some iattr, some anc =>
+      match parseInit iattr init with
       | none => "bad-init"
       | some init =>
         let asg : Option (Option PyV) := match assign with
@@ -120,10 +139,10 @@ def run (payload : String) : String :=
         match asg with
         | none => "bad-assign"
         | some asg =>
-          if mode = "cell" then (runCell genTables tag prop attr anc init asg).render
-          else if mode = "spec" then (runSpec tag prop anc init asg).render
+          if mode = "cell" then (runCell genTables tag prop attr anc (pre = "true") via init asg).render
+          else if mode = "spec" then (runSpec (lowerS tag) prop anc init asg).render
           else "bad-mode"
-    | _, _, _, _ => "bad-case"
+    | _, _, _, _, _ => "bad-case"
   | _ => "bad-case"
 
 end Driver.C19
